@@ -98,11 +98,48 @@ def run(ctx, driver):
     answers = driver.run(lines) if driver else [None] * len(cases)
     for (c, r), ans in zip(cases, answers):
         check(rec, c, r, ans)
+    sequences(ctx, rec)
     return rec.finish("C11/B2 proxy hops",
                       "proxy kind {http,https,socks5,socks5h} x credentials x custom proxy headers (case-colliding with request headers, Host, Accept, "
                       "Proxy-Authorization) x origin scheme/host/port x request headers/body x proxy reply (CONNECT status incl. 199/204/299/300/407, "
                       "SOCKS method refusal, auth failure, every reply code): bytes seen by the proxy before the tunnel and inside it compared with "
                       "the model and judged by the property. distinct = distinct (configuration, request)")
+
+
+def sequences(ctx, rec):
+    """several requests in a row over one pool: what a hop sees for request k is determined by request k and the proxy configuration
+    alone - nothing of an earlier request (its Authorization, Cookie, body, token) shows up in a later one, on any hop"""
+    rng = ctx.rng
+    for i in range(60 if ctx.quick else 3000):
+        c = gen_cfg(rng)
+        c.pop("connect_status", None); c.pop("socks_method_reply", None); c.pop("socks_connect_reply", None); c.pop("socks_auth_reply", None)
+        w = estb2.World(c)
+        scheme = rng.choice(["http", "http", "https"])
+        host = "a.example"
+        marks = []
+        fails = None
+        nreq = rng.randint(2, 4)
+        for k in range(nreq):
+            secret = b"SEQ%d-%d-" % (i, k) + bytes(rng.choice(b"abcdef") for _ in range(6))
+            hs = [(rng.choice([b"Authorization", b"Cookie", b"X-Caller"]), secret)] if rng.random() < 0.8 else []
+            before = {id(p): len(bytes(p.written)) for p in w.peers if hasattr(p, "written")}
+            out = w.request(scheme, host, None, f"tokSEQ{k}", headers=hs)
+            rec.evals += 1
+            if out["outcome"] != "ok":
+                break
+            for p in w.peers:
+                if not hasattr(p, "written"):
+                    continue
+                new = bytes(p.written)[before.get(id(p), 0):]
+                for (k0, m) in marks:
+                    if m in new:
+                        fails = {"request": k, "carries_secret_of_request": k0, "hop": getattr(p, "role", "?"), "scheme": scheme}
+            marks.append((k, secret))
+        rec.distinct.add(("seq", i))
+        rec.dist["sequence:" + scheme + ":" + c["proxy"]] += 1
+        if fails:
+            rec.fail("earlier-request-leaks-into-later-one", {"hop": fails["hop"]},
+                     {"cfg": {k: (list(v) if isinstance(v, tuple) else repr(v)) for k, v in c.items()}, "detail": fails})
 
 
 def check(rec, c, r, ans):
